@@ -253,6 +253,26 @@ func runChain(sh chainShape, table map[byte]refmodel.Behaviour) (obs chainObs, b
 		obs.events, obs.status, obs.body = log, w.Code, w.Body.String()
 		return
 	}
+	if sh.Via == "notfound-custom-only" {
+		// the chain is a custom NotFound chain of n handlers on a router WITHOUT global middleware; the router has served
+		// an unmatched and a matched request (twice) before the measured one
+		regPanic = try(func() {
+			r.NotFound(hs...)
+			r.GET("/ok", func(*rux.Context) {}, func(*rux.Context) {}, func(*rux.Context) {})
+		})
+		if regPanic != nil {
+			return
+		}
+		for i := 0; i < 2; i++ {
+			_ = try(func() { r.ServeHTTP(httptest.NewRecorder(), httptest.NewRequest("GET", "/no/such/route/before", nil)) })
+			_ = try(func() { r.ServeHTTP(httptest.NewRecorder(), httptest.NewRequest("GET", "/ok", nil)) })
+		}
+		log = log[:0]
+		w := httptest.NewRecorder()
+		obs.pv = try(func() { r.ServeHTTP(w, httptest.NewRequest("GET", "/no/such/route", nil)) })
+		obs.events, obs.status, obs.body = log, w.Code, w.Body.String()
+		return
+	}
 	if sh.Via == "notfound" {
 		// the chain is: n-1 global middleware around the built-in not-found responder (no route matches)
 		regPanic = try(func() {
@@ -349,6 +369,8 @@ func runChain(sh chainShape, table map[byte]refmodel.Behaviour) (obs chainObs, b
 				r.GET("/sibling", func(*rux.Context) {}).Use(func(*rux.Context) {})
 				r.GET("/sibling2", func(*rux.Context) {}, func(*rux.Context) {}, func(*rux.Context) {})
 			})
+			// a route outside the group, registered afterwards: the group's Use middleware is none of its business
+			r.GET("/outside-the-group", func(*rux.Context) {})
 		} else if p > 0 {
 			r.Group("/", reg, hs[g:g+p]...)
 		} else {
@@ -394,6 +416,14 @@ func runChain(sh chainShape, table map[byte]refmodel.Behaviour) (obs chainObs, b
 	}
 	w := httptest.NewRecorder()
 	obs.pv = try(func() { r.ServeHTTP(w, httptest.NewRequest(method, reqPath, nil)) })
+	if p > 0 && g == 0 && strings.Contains(sh.Hooks, "S") {
+		// (no global middleware: a request for the route outside the group runs none of the instrumented handlers)
+		n0 := len(log)
+		_ = try(func() { r.ServeHTTP(httptest.NewRecorder(), httptest.NewRequest("GET", "/outside-the-group", nil)) })
+		if len(log) != n0 {
+			log = append(log[:n0:n0], refmodel.Event{Kind: "enter", H: 900 + log[n0].H})
+		}
+	}
 	obs.events = log
 	obs.status = w.Code
 	obs.body = w.Body.String()
